@@ -133,17 +133,17 @@ func genPathSingleSource(c *core.Ctx) {
 			if len(ret.Results) != 1 {
 				continue
 			}
-			call, ok := astx.Unparen(ret.Results[0]).(*ast.CallExpr)
-			if !ok || !astx.IsPkgFunc(astx.Callee(info, call), "fmt", "Sprintf") || len(call.Args) != 3 {
-				why = "not fmt.Sprintf(format, service, method)"
+			// the pieces of the string, whether it is put together by fmt.Sprintf or by concatenation
+			parts, ok := stringParts(info, ret.Results[0])
+			if !ok || len(parts) != 4 || parts[0].expr != nil || parts[2].expr != nil || parts[1].expr == nil || parts[3].expr == nil {
+				why = "not \"/\" + service + \"/\" + method (by fmt.Sprintf or by concatenation)"
 				continue
 			}
-			format, _ := astx.ConstString(info, call.Args[0])
-			a1, a2 := selectorChain(call.Args[1]), selectorChain(call.Args[2])
+			a1, a2 := selectorChain(astx.StripConv(info, parts[1].expr)), selectorChain(astx.StripConv(info, parts[3].expr))
 			svcOK := strings.HasSuffix(a1, ".Desc.FullName()") && strings.Contains(a1, "Parent")
 			methOK := strings.HasSuffix(a2, ".Desc.Name()") && !strings.Contains(a2, "Parent")
-			good = format == "/%s/%s" && svcOK && methOK
-			why = fmt.Sprintf("format %q, service part %s, method part %s", format, a1, a2)
+			good = parts[0].lit == "/" && parts[2].lit == "/" && svcOK && methOK
+			why = fmt.Sprintf("%q, service part %s, %q, method part %s", parts[0].lit, a1, parts[2].lit, a2)
 		}
 		c.Check(good, "path-shape", fd.Pos(), "%s builds \"/\"+service FullName()+\"/\"+method Name() (%s)", pathFn.Name(), why)
 		usesPackage := false
@@ -702,4 +702,79 @@ func strconvUnquote(s string) (string, error) {
 		return s[1 : len(s)-1], nil
 	}
 	return s, fmt.Errorf("not a quoted string")
+}
+
+// strPart is one piece of a string built by fmt.Sprintf or by +: a literal or an expression.
+type strPart struct {
+	lit  string
+	expr ast.Expr
+}
+
+// stringParts splits a string-valued expression into literal and non-literal pieces. It understands
+// fmt.Sprintf with %s / %v directives (one argument each) and + chains; adjacent literals are merged.
+func stringParts(info *types.Info, e ast.Expr) ([]strPart, bool) {
+	var out []strPart
+	add := func(p strPart) {
+		if p.expr == nil && len(out) > 0 && out[len(out)-1].expr == nil {
+			out[len(out)-1].lit += p.lit
+			return
+		}
+		if p.expr == nil && p.lit == "" {
+			return
+		}
+		out = append(out, p)
+	}
+	var walk func(e ast.Expr) bool
+	walk = func(e ast.Expr) bool {
+		e = astx.Unparen(e)
+		if v, ok := astx.ConstString(info, e); ok {
+			add(strPart{lit: v})
+			return true
+		}
+		switch x := e.(type) {
+		case *ast.BinaryExpr:
+			if x.Op == token.ADD {
+				return walk(x.X) && walk(x.Y)
+			}
+		case *ast.CallExpr:
+			if astx.IsPkgFunc(astx.Callee(info, x), "fmt", "Sprintf") && len(x.Args) >= 1 {
+				format, ok := astx.ConstString(info, x.Args[0])
+				if !ok {
+					return false
+				}
+				arg := 1
+				lit := ""
+				for i := 0; i < len(format); i++ {
+					if format[i] != '%' {
+						lit += string(format[i])
+						continue
+					}
+					i++
+					if i >= len(format) {
+						return false
+					}
+					switch format[i] {
+					case '%':
+						lit += "%"
+					case 's', 'v':
+						if arg >= len(x.Args) {
+							return false
+						}
+						add(strPart{lit: lit})
+						lit = ""
+						add(strPart{expr: x.Args[arg]})
+						arg++
+					default:
+						return false
+					}
+				}
+				add(strPart{lit: lit})
+				return arg == len(x.Args)
+			}
+		}
+		add(strPart{expr: e})
+		return true
+	}
+	ok := walk(e)
+	return out, ok
 }
